@@ -105,6 +105,12 @@ def run(ctx, n=None):
         ordered = sorted(names)
         # reassign contents so that documented read order == split order
         files = {rel: gen.yaml_doc(p) for rel, p in zip(ordered, parts)}
+        # the empty file is the identity of merging, through the real read path too: an empty file, a file holding only a
+        # comment, an explicit empty document / empty mapping — first, in the middle and last in read order
+        empties = ["", "# nothing here yet\n", "---\n", "{}\n", "\n\n"]
+        files["cfg/%s/%s.yaml" % (dirs[i % 4], ["000", "p00x", "zzz"][i % 3])] = empties[i % len(empties)]
+        if i % 2:
+            files["cfg/b/zzzz.yaml"] = empties[(i + 2) % len(empties)]
         multi = runsc.run_scenario(ctx, {"name": "split", "files": files, "patterns": pat, "out": "out/gen.go", "flags": {}}, with_model=(i < 4))
         dist["split_builds"] += 1
         a, b = single["cli"], multi["cli"]
@@ -113,7 +119,7 @@ def run(ctx, n=None):
                 corr_fail.append({"op": "run:" + d[0], "files": files, "impl": d[1], "model": d[2]})
         if a["exit"] != b["exit"] or (a["exit"] == 0 and a["after"] != b["after"]):
             violations.append({"sig": "split-changes-output", "what": "a configuration split into %d files (read in documented order) builds differently: exit %d vs %d" % (k, a["exit"], b["exit"]),
-                               "files": [gen.yaml_doc(cfg)] + [files[r] for r in ordered], "observed": b["stdout"][-400:]})
+                               "files": [gen.yaml_doc(cfg)] + [files[r] for r in sorted(files)], "observed": b["stdout"][-400:]})
     # 4. documented file order: pattern order first, cleaned lexical order inside a pattern
     for (fa, fb, pats, winner) in [
         ("cfg/a/x.yaml", "cfg/a-b/x.yaml", ["cfg/*/x.yaml"], "a"),          # lexical: cfg/a-b/x.yaml < cfg/a/x.yaml, so `a` is read last and wins
@@ -130,7 +136,7 @@ def run(ctx, n=None):
         if ('return "%s", nil' % winner) not in txt:
             violations.append({"sig": "file-order", "what": "files %s/%s with patterns %r: the later file in documented order (%s) must win" % (fa, fb, pats, winner), "files": [files[fa], files[fb]], "patterns": pats})
     return {"evaluations": dist["assoc_cases"] * 4 + dist["split_builds"] * 2 + dist["order_cases"] + 2, "distinct_nontrivial": len(nontriv),
-            "rule": "random document triples and generated 3-way splits (merge correspondence, associativity and identity on the implementation); an overriding pair touching every attribute; split-vs-unsplit builds through the real command (2-5 files, directories a / a-b / a.c / b so that glob order differs from cleaned lexical order); explicit file-order cases; distinct = distinct merged inputs",
+            "rule": "random document triples and generated 3-way splits (merge correspondence, associativity and identity on the implementation); an overriding pair touching every attribute; split-vs-unsplit builds through the real command (2-5 files plus empty / comment-only / empty-document files at the start, middle and end of the read order, directories a / a-b / a.c / b so that glob order differs from cleaned lexical order); explicit file-order cases; distinct = distinct merged inputs",
             "samples": [{"docs": 3}], "distribution": dist, "violations": violations, "corr_fail": corr_fail}
 
 
